@@ -19,7 +19,7 @@ import (
 
 // Op is one move of a history (JSON = the replay file format, one op per line).
 type Op struct {
-	Kind   string        `json:"op"` // conf aspec asub akey arng resv upd rel rels admres admunres deliver isync restart
+	Kind   string        `json:"op"` // conf aspec asub akey arng resv upd rel rels admres admunres deliver isync apisync restart
 	Conf   Conf          `json:"conf,omitempty"`
 	Key    string        `json:"key,omitempty"`
 	New    string        `json:"new,omitempty"`
@@ -296,6 +296,8 @@ func (w *World) Exec(op Op) Step {
 		}
 	case "isync":
 		run(func() { synced = w.InformerSync() })
+	case "apisync":
+		w.ApiCacheSync()
 	case "restart":
 		w.Restart()
 	default:
@@ -467,6 +469,8 @@ func (w *World) Exec(op Op) Step {
 		st.Line, st.Impl = strings.Join(ls, "\n"), strings.Join(is, "\n")
 	case "restart":
 		st.Line, st.Impl = "restart", "ok"
+	case "apisync":
+		st.Line, st.Impl = "", "" // the model's reload reads the store (a consistent read): nothing to tell it
 	}
 	if st.Class == "crashed" {
 		// the process died: a new one starts from the store
